@@ -65,7 +65,7 @@ pub open spec fn batch_ok(items: Seq<Value>) -> bool {
 //@rule R7 min=1
 //@rule R8
 //@presub /use libdeflater::\{CompressionLvl, Compressor\};\n/ => ""
-//@presub /let mut compressor = Compressor::new\(CompressionLvl::default\(\)\);\s*let max_sz = compressor\.zlib_compress_bound\(bytes\.len\(\)\);\s*let mut compressed_data = vec!\[0; max_sz\];\s*let actual_sz = compressor\s*\.zlib_compress\(&bytes, &mut compressed_data\)\s*\.unwrap\(\);\s*compressed_data\.resize\(actual_sz, 0\);/ => let compressed_data = deflate_vec(&bytes);
+//@presub /let mut compressor = Compressor::new\(CompressionLvl::default\(\)\);\s*let max_sz = compressor\.zlib_compress_bound\(bytes\.len\(\)\);\s*let mut compressed_data = vec!\[0; max_sz\];\s*let actual_sz = compressor\s*\.zlib_compress\(&bytes, &mut compressed_data\)\s*\.unwrap\(\);\s*compressed_data\.resize\(actual_sz, 0\);/ => let compressed_data = deflate_vec(&bytes); let actual_sz = compressed_data.len(); let max_sz = actual_sz;
 //@sub /let mut bytes = Vec::with_capacity\(24 \+ \(items_in_section\.len\(\) \* 24\)\);/ => let mut bytes = Sink::with_capacity(0);
 //@sub /\(bytes, 0\)/ => (bytes.bytes, 0)
 //@sub /io::Result</ => Result<
